@@ -38,6 +38,10 @@ type sigAdapter struct {
 	// units counts the indivisible units of a payload when they are coarser than items (profiles: a profile's
 	// samples cannot be separated); nil = items
 	units func(p any) int
+	// wire form <-> payload, and the helper's own request encoding (wire form <-> Request) for direct MergeSplit calls
+	marshal   func(p any) []byte
+	unmarshal func(b []byte) any
+	qbs       func() exporterhelper.QueueBatchSettings
 }
 
 type simExporter interface {
@@ -220,6 +224,24 @@ var profilesAdapter = &sigAdapter{
 var adapters = []*sigAdapter{logsAdapter, tracesAdapter, metricsAdapter}
 
 func init() {
+	logsAdapter.marshal = func(p any) []byte { b, _ := (&plog.ProtoMarshaler{}).MarshalLogs(p.(plog.Logs)); return b }
+	logsAdapter.unmarshal = func(b []byte) any { x, _ := (&plog.ProtoUnmarshaler{}).UnmarshalLogs(b); return x }
+	logsAdapter.qbs = exporterhelper.NewLogsQueueBatchSettings
+	tracesAdapter.marshal = func(p any) []byte { b, _ := (&ptrace.ProtoMarshaler{}).MarshalTraces(p.(ptrace.Traces)); return b }
+	tracesAdapter.unmarshal = func(b []byte) any { x, _ := (&ptrace.ProtoUnmarshaler{}).UnmarshalTraces(b); return x }
+	tracesAdapter.qbs = exporterhelper.NewTracesQueueBatchSettings
+	metricsAdapter.marshal = func(p any) []byte {
+		b, _ := (&pmetric.ProtoMarshaler{}).MarshalMetrics(p.(pmetric.Metrics))
+		return b
+	}
+	metricsAdapter.unmarshal = func(b []byte) any { x, _ := (&pmetric.ProtoUnmarshaler{}).UnmarshalMetrics(b); return x }
+	metricsAdapter.qbs = exporterhelper.NewMetricsQueueBatchSettings
+	profilesAdapter.marshal = func(p any) []byte {
+		b, _ := (&pprofile.ProtoMarshaler{}).MarshalProfiles(p.(pprofile.Profiles))
+		return b
+	}
+	profilesAdapter.unmarshal = func(b []byte) any { x, _ := (&pprofile.ProtoUnmarshaler{}).UnmarshalProfiles(b); return x }
+	profilesAdapter.qbs = xexporterhelper.NewProfilesQueueBatchSettings
 	logsAdapter.hollow = func(p any) bool {
 		ld := p.(plog.Logs)
 		for i := 0; i < ld.ResourceLogs().Len(); i++ {
